@@ -226,6 +226,12 @@ impl IotaDID {
   // TODO: Remove the lint once this bug in clippy has been fixed. Without to_owned a mutable reference will be aliased.
   #[allow(clippy::unnecessary_to_owned)]
   fn normalize(mut did: CoreDID) -> CoreDID {
+    // The hex digits of the tag are the only characters of a valid IOTA DID that may be upper case.
+    if did.method_id().bytes().any(|byte| byte.is_ascii_uppercase()) {
+      did
+        .set_method_id(did.method_id().to_ascii_lowercase())
+        .expect("lowercasing a valid method id should be Ok");
+    }
     let method_id = did.method_id();
     let (network, tag) = Self::denormalized_components(method_id);
     if tag.len() == method_id.len() || network != Self::DEFAULT_NETWORK {
